@@ -71,6 +71,39 @@ func init() {
 		ps.strVars[full] = ts
 		return symS{b}
 	}
+	// ndStringIn(name, n, alphabet): n symbolic bytes, each constrained (by one
+	// non-forking path-condition conjunct) to the alphabet; "a-z" denotes a range,
+	// a literal '-' must come first or last.
+	ndHandlers["ndStringIn"] = func(fr *frame, args []value) value {
+		ps := fr.i.ps
+		tt := ps.tt
+		s := ndHandlers["ndString"](fr, args[:2])
+		alpha := concStr(fr, args[2])
+		ss, ok := s.(symS)
+		if !ok {
+			return s
+		}
+		for _, c := range ss.b {
+			t := c.(symI).t
+			cond := tt.Bool(false)
+			for k := 0; k < len(alpha); k++ {
+				if k+2 < len(alpha) && alpha[k+1] == '-' {
+					cond = tt.Or(cond, tt.And(tt.bvcmp("bvule", tt.BV(8, uint64(alpha[k])), t), tt.bvcmp("bvule", t, tt.BV(8, uint64(alpha[k+2])))))
+					k += 2
+					continue
+				}
+				cond = tt.Or(cond, tt.Eq(t, tt.BV(8, uint64(alpha[k]))))
+			}
+			ps.assume(cond)
+		}
+		return s
+	}
+	ndHandlers["vBound"] = func(fr *frame, args []value) value {
+		if v, ok := fr.i.env.bounds[concStr(fr, args[0])]; ok {
+			return v
+		}
+		return args[1]
+	}
 	ndHandlers["ndMapOrder"] = func(fr *frame, args []value) value {
 		fr.i.ps.mapOrderSym = args[0].(bool)
 		return nil
